@@ -718,6 +718,36 @@ func (c *SpecCtx) ghostFieldRead(owner Value, ot types.Type, gf *GhostField) (Va
 	panic("ghost type")
 }
 
+// holdsTarget resolves a `holds x.mu` clause to the object holding the mutex and its monitor.
+func (e *Exec) holdsTarget(fc *FuncContract, st *State, vars map[string]specVar, cc *calleeCtx) (*Node, *Monitor) {
+	i := strings.LastIndex(fc.Holds, ".")
+	if i < 0 {
+		e.unsupported("holds %q: expected <object>.<mutex field>", fc.Holds)
+	}
+	n, err := parseSpec(fc.Holds[:i])
+	if err != nil {
+		e.unsupported("holds %q: %v", fc.Holds, err)
+	}
+	var v Value
+	var t types.Type
+	if cc != nil {
+		v, t = e.evalNodeWith(*cc, n, st, st, vars)
+	} else {
+		ctx := &SpecCtx{e: e, st: st, old: st, vars: map[string]specVar{}, pkg: e.pkgTypes()}
+		v, t = ctx.eval(n)
+	}
+	obj, ok := v.(*Node)
+	pt, isPtr := t.Underlying().(*types.Pointer)
+	if !ok || !isPtr {
+		e.unsupported("holds %q: not a pointer to an object", fc.Holds)
+	}
+	mon := e.v.monitorFor(pt.Elem(), fc.Holds[i+1:])
+	if mon == nil {
+		e.unsupported("holds %q: no monitor declared for this mutex", fc.Holds)
+	}
+	return obj, mon
+}
+
 // ---------- verification drivers ----------
 
 type FuncReport struct {
@@ -776,6 +806,10 @@ func (v *Verifier) verifyFunc(fullKey string, fc *FuncContract) (rep *FuncReport
 	}
 	for _, ax := range v.db.Axioms {
 		st.assume(e.asHyp(func() *Node { return e.evalClause(ax, st, s, nil) }))
+	}
+	if fc.Holds != "" {
+		obj, mon := e.holdsTarget(fc, st, nil, nil)
+		st.held = append(st.held, heldMutex{Obj: obj, Key: mon.TypeName + "." + mon.MutexField, Mon: mon, Inherited: true})
 	}
 	// reachability of the body under the preconditions (vacuity guard)
 	e.obls = append(e.obls, &Obligation{Name: e.funcKey + "/cover/requires", Kind: "cover", Goal: tTrue, Hyp: st.pc, Cover: true,
@@ -848,7 +882,7 @@ func (e *Exec) frameObligations(ret, entry *State, fc *FuncContract) {
 		switch {
 		case strings.HasPrefix(m, "H:") || strings.HasPrefix(m, "A:") || strings.HasPrefix(m, "G:") || strings.HasPrefix(m, "M:"):
 			allowedWhole[m] = true
-			if strings.HasPrefix(m, "M:") {
+			if strings.HasPrefix(m, "M:") || strings.HasPrefix(m, "A:") {
 				for _, k := range names {
 					if strings.HasPrefix(k, m+".") {
 						allowedWhole[k] = true
